@@ -708,6 +708,17 @@ func (d *C14) Step(r *RPC, mode int, failSrc []int) {
 			d.wr.statClass = int(v.Info.Class)
 		}
 	}
+	if executed && r.Kind == KGetTracts {
+		if v, ok := r.Result.(tractsReply); ok && v.Err == core.NoError {
+			for _, ti := range v.Tracts {
+				if ti.RS.Present() && len(ti.TSIDs) > 0 {
+					d.report("lookup-names-replicas-of-a-tract-that-has-an-rs-pointer",
+						"GetTracts handed out the replicated hosts of a tract that already has an RS pointer: the lookup no longer keeps writers away from the frozen replicas (only the client's own check does)",
+						map[string]interface{}{"tract": ti.Tract.String(), "hosts": fmt.Sprint(ti.TSIDs)})
+				}
+			}
+		}
+	}
 	d.Stats[fmt.Sprintf("step.%d.mode%d", int(r.Kind), mode)]++
 	// what the caller saw
 	var reply []int64
